@@ -42,6 +42,16 @@ class _Boom(Exception):
     pass
 
 
+QUIET = [False]
+
+
+def _probe(eng, ureg, model, x, tag, full=True):
+    # in quiet runs nothing is asked until the very end: what the registry memoises then depends
+    # on the operations alone (an answer given earlier can hide a stale table)
+    if not QUIET[0]:
+        probe(eng, ureg, model, x, tag, full)
+
+
 def run_ops(eng, ureg, model, W, x, ops, pos, tag, shared, full):
     """execute ops[pos:] at the current nesting level; returns nothing"""
     i = pos
@@ -66,7 +76,7 @@ def run_ops(eng, ureg, model, W, x, ops, pos, tag, shared, full):
         elif kind == "with_none":
             # a with-block that names no context pushes nothing and pops nothing
             with ureg.context():
-                probe(eng, ureg, model, x, t + "in", False)
+                _probe(eng, ureg, model, x, t + "in", False)
         elif kind == "define":
             ureg.define(f"nu = {eng.lit(W.sn)} * m")
             model.late_units["nu"] = W.sn
@@ -93,7 +103,7 @@ def run_ops(eng, ureg, model, W, x, ops, pos, tag, shared, full):
             try:
                 with ureg.context(obj, **kw):
                     model.enable(c, n)
-                    probe(eng, ureg, model, x, t + "in", full)
+                    _probe(eng, ureg, model, x, t + "in", full)
                     if kind == "with_raise":
                         raise _Boom()
                     # the body is the next operation (if any)
@@ -106,11 +116,12 @@ def run_ops(eng, ureg, model, W, x, ops, pos, tag, shared, full):
             model.disable(1)
             if kind == "with":
                 i += 1
-        probe(eng, ureg, model, x, t, full)
+        _probe(eng, ureg, model, x, t, full)
         i += 1
 
 
-def h_sequence(eng, ops, full):
+def h_sequence(eng, ops, full, quiet=False):
+    QUIET[0] = quiet
     W = World(eng)
     W.nv = {0: eng.real("nv0"), 1: eng.real("nv1")}
     for v in W.nv.values():
@@ -131,7 +142,7 @@ def h_sequence(eng, ops, full):
     model = Model(W)
     other_model = Model(W)
     snap = _ctx_snapshot(ureg, shared)
-    probe(eng, ureg, model, x, "init", full)
+    _probe(eng, ureg, model, x, "init", full)
     run_ops(eng, ureg, model, W, x, [tuple(o) for o in ops], 0, "op", shared, full)
     # unwinding everything restores every answer
     ureg.disable_contexts()
@@ -204,6 +215,19 @@ def cases(tier, seed):
     else:
         seqs += rnd.sample(triples, 500)
     out = []
+    # quiet sequences: nothing is asked before the end (re-activations of the same combination,
+    # repeated enter/leave, failures in between)
+    quiet = []
+    for c in ("c3", "c4", "c1"):
+        quiet.append([("enable", c, None), ("disable", 1), ("enable", c, None), ("disable", 1)])
+        quiet.append([("with", c, None), ("disable", 0), ("with", c, None)])
+        quiet.append([("enable", c, None), ("disable", None), ("enable", c, None)])
+        quiet.append([("enable", c, None), ("enable_bad",), ("disable", 1), ("enable", c, None), ("disable", 1)])
+        quiet.append([("enable", "c3", None), ("enable", c, None), ("disable", 2), ("enable", "c3", None), ("enable", c, None), ("disable", 1)])
+    quiet += [list(s) for s in rnd.sample(triples, 400 if big else 60)]
+    for s in quiet:
+        sig = "quiet:" + ";".join(":".join(str(x) for x in o) for o in s)
+        out.append(Case("H12", sig, M, "h_sequence", {"ops": [list(o) for o in s], "full": True, "quiet": True}, opts={"hash_mode": "mixed", "max_paths": 400}, validate=0, weight=float(len(s))))
     for i, s in enumerate(seqs):
         sig = ";".join(":".join(str(x) for x in o) for o in s)
         out.append(Case("H12", sig, M, "h_sequence", {"ops": [list(o) for o in s], "full": True}, opts={"hash_mode": "mixed", "max_paths": 400}, validate=1 if i % 10 == 0 else 0, weight=float(len(s))))
